@@ -34,7 +34,12 @@ Victims == <<
   << Forall("E", Tt, "auto", <<Forall("B", Tt, "auto", <<Let("A", Bin("+", V("B"), V("E"))), Let("$S", Bin("+", V("$S"), V("B")))>>), Let("E", Bin("+", V("E"), I(1)))>>), PrintS(<<A>>) >>,
   << For("K", I(1), I(2), NoExpr, "auto", <<For("B", I(1), V("K"), NoExpr, "desc", <<Let("A", Bin("*", V("B"), V("K")))>>), While(Bin("<", A, I(0)), <<Let("A", Bin("+", A, I(1))), Break>>)>>), PrintS(<<A>>) >>,
   << Begin(<<Forall("E", Tt, "auto", <<Begin(<<Let("A", Bin("/", V("E"), I(0)))>>, <<When("DIVIDE_BY_ZERO", <<Let("A", I(7))>>)>>)>>)>>, <<When("OTHERS", <<Let("A", I(8))>>)>>), PrintS(<<A>>) >>,
-  << While(Bin("<", A, I(3)), <<Let("A", Bin("+", A, I(1))), Break>>), If(Bin(">", A, I(0)), <<Nop>>, <<Nop>>), For("K", I(1), I(1), NoExpr, "auto", <<Nop>>), Begin(<<Nop>>, <<>>), PrintS(<<A>>) >>
+  << While(Bin("<", A, I(3)), <<Let("A", Bin("+", A, I(1))), Break>>), If(Bin(">", A, I(0)), <<Nop>>, <<Nop>>), For("K", I(1), I(1), NoExpr, "auto", <<Nop>>), Begin(<<Nop>>, <<>>), PrintS(<<A>>) >>,
+  \* one text that redefines the same existing function more than once (the unit journal holds several backups of one
+  \* function: they must be undone latest first), with other redefinitions and new functions in between
+  << Func("F", <<"X">>, <<Return(I(100))>>), Func("G", <<"X">>, <<Return(I(200))>>), Func("F", <<"X">>, <<Return(I(101))>>), Let("A", I(3)) >>,
+  << Func("G", <<"X", "Y">>, <<Return(I(300))>>), Func("NF", <<"X">>, <<Return(I(1))>>), Func("G", <<"X", "Y">>, <<Return(I(301))>>),
+     Func("NF", <<"X">>, <<Return(I(2))>>), Func("G", <<"X", "Y">>, <<Return(I(302))>>), PrintS(<<UCall("G", <<I(1), I(2)>>)>>) >>
 >>
 
 Probe == << PrintS(<<UCall("F", <<I(1)>>), Str(" "), UCall("G", <<I(2)>>), Str(" "), UCall("G", <<I(5), I(2)>>), Str(" "), A, Str(" "), V("$S"), Str(" "), Mem(Tt, "count", <<>>), Str(" "), Item(V("U"), 2)>>),
